@@ -104,7 +104,7 @@ CLAIMED = {
              "the result (known_findings.txt).", design="5/C04",
         technique="Coq proof (bit-level round trip by induction over field arrays and masks) + extracted-model correspondence"),
     "C09": dict(
-        text="Theorems C09_framer_is_incremental / C09_incremental_pipeline (axiom-free): the framer as a machine that is given one byte "
+        text="C09_channels_safe / C09_closed_for_good (NetSafety.v, any network of Net.v): in EVERY reachable configuration the channel capacities are unchanged, no buffer exceeds its capacity, a closed channel stays closed and only drains. Theorems C09_framer_is_incremental / C09_incremental_pipeline (axiom-free): the framer as a machine that is given one byte "
              "at a time (IncFrame.v) delivers exactly what the model's stream handler delivers, and with that machine as the "
              "framer process every schedule delivers those messages to every consumer; C09_source_shape: the regenerated facts "
              "that the fan-out loop has the transcribed shape and that the framer reads its input only through the byte "
@@ -161,7 +161,7 @@ CLAIMED = {
              "applications returned without waiting (known_findings.txt).", design="5/C11",
         technique="Coq proof (invariant over all interleavings of a channel network) + source fact + blocking-writer oracle"),
     "C16": dict(
-        text="Theorems C16_logger / C16_no_deadlock (axiom-free), same network with pass-through enabled: main writes each block to "
+        text="C16_prefixes_always / C16_prefixes_bounded: at every moment of every execution stdout holds a prefix of the input, the record a prefix of stdout, at most capacity+2 blocks behind. Theorems C16_logger / C16_no_deadlock (axiom-free), same network with pass-through enabled: main writes each block to "
              "its own output before handing a copy to the recorder, closes the channel at end of input and waits (fact "
              "waits_rtcmlogger regenerated from the source); in every reachable configuration in which main has returned, the "
              "pass-through output and the record both equal the input block list, for all capacities, latencies and schedules. "
@@ -224,7 +224,7 @@ CLAIMED = {
              "schedules; that the lock statements guard the same mutex is read off the source by a syntactic pattern.", design="5/C18",
         technique="Coq proof (induction over operation sequences; invariant over all interleavings of lock-protected non-atomic bodies) + source lock facts + race-detector runs"),
     "C19": dict(
-        text="Theorems C19_relay_every_schedule / C19_relay_final (axiom-free, Relay.v): the client-to-server loop (push every byte "
+        text="C19_relay_prefix_always (NetLocal.v: a process's state and emitted events change only by its own steps): after any number of steps of any schedule the server has been written a prefix of the client's chunks, unchanged. Theorems C19_relay_every_schedule / C19_relay_final (axiom-free, Relay.v): the client-to-server loop (push every byte "
              "of a chunk to the parser's channel, then write the chunk to the server), the parser (ANY framing state machine) and "
              "the queue updater as a network over bounded channels: for all chunk sequences, capacities and schedules executions "
              "are finite and end in ONE configuration in which the loop has returned, the server was written exactly the "
